@@ -75,7 +75,9 @@ class Mon(Monitor):
             # timing on one connection
             if prev[1] == ci:
                 gap = p_time(w) - prev[5]
-                t0 = w.conns[first[1]].timeout
+                # the initial timeout in force when the request was made and when it was first sent differ only for a
+                # message held back across a reconfiguration / rebuilt protocol: the smaller one is demanded (DESIGN 6)
+                t0 = min(w.conns[first[1]].timeout, r.args.get('timeout_at_call', w.conns[first[1]].timeout))
                 if gap < t0 - 1e-6:
                     out.append(V('gap', 'gap-below-initial-timeout/%s' % t,
                                  '%s of request %d repeated after %.3fs, initial timeout is %s' % (t, r.idx, gap, t0)))
@@ -151,19 +153,19 @@ def scenarios(ctx):
     if q:
         grid = [(3, 1, 10000, 2, 'short'), (4, 4, 1, 1, 'short'), (3, 1024, 100, 3, 'big'), (4, 1, 100, 3, 'huge')]
     else:
-        for v in versions:
-            for t in (1, 4, 1024):
-                for (b, f) in ((10000, 2), (1, 1), (100, 3)):
-                    for pk in ('short', 'big', 'huge'):
-                        grid.append((v, t, b, f, pk))
+        # pairwise cover of version x timeout x (bandwidth, factor) x payload (the full product is 54 configurations)
+        grid = [(3, 1, 10000, 2, 'short'), (4, 1, 1, 1, 'big'), (3, 1, 100, 3, 'huge'),
+                (4, 4, 10000, 2, 'big'), (3, 4, 1, 1, 'huge'), (4, 4, 100, 3, 'short'),
+                (3, 1024, 10000, 2, 'huge'), (4, 1024, 1, 1, 'short'), (3, 1024, 100, 3, 'big'),
+                (4, 1, 10000, 2, 'huge'), (3, 4, 100, 3, 'short'), (4, 1024, 1, 1, 'big')]
     for (v, t, b, f, pk) in grid:
         init = (('connect', 0, False, 0, v), ('connack', 0, 0, False), ('settimeout', 0, t), ('setbw', 0, b, f),
                 ('setwin', 0, 2))
         name = 'v%d-t%d-bw%d-f%d-%s' % (v, t, b, f, pk)
         out.append(Pub('pub-' + name, pk, profile='pub', init=init, connects=[(False, 0, v)], reconnects=[(False, 0, v)],
                        pub_qos=(1, 2), jits=(0.75, 0.0),
-                       budgets=dict(pub=2, ack=1 if q else 2, dack=1, tick=3 if q else 6, jit=1 if q else 2, lose=1, rebuild=1, connect=1,
-                                    connack=1, setwin=0 if q else 1), windows=(1, 3)))
+                       budgets=dict(pub=2, ack=1 if q else 2, dack=1, tick=3 if q else 4, jit=1, lose=1, rebuild=1, connect=1,
+                                    connack=1, setwin=0), windows=(1, 3)))
         out.append(Std('sub-' + name, profile='sub', init=init[:3] + (('setwin', 0, 2),), connects=[(False, 0, v)],
                        jits=(0.75, 0.0),
                        budgets=dict(sub=1 if q else 2, unsub=1, ack=1, tick=4 if q else 7, jit=1 if q else 2, lose=1, rebuild=1, connect=1, connack=1),
